@@ -641,7 +641,9 @@ def main(argv: List[str]) -> int:
         "runs_per_hour": int(len(judged) / max(wall, 1e-6) * 3600),
         "generator_invocations": sum(r.get("invocations", 0) for r in ok),
         "seeds": {"VERIF_SEED": seed, "first_run_seeds": run_seeds[:5]},
-        "simulated_time": "none: no property-relevant code reads a clock; a history is a sequence of process lifetimes",
+        "simulated_time": {"note": "a history is a sequence of process lifetimes; the wall clock each generator process sees is shifted by a simulated offset (skew / jump between runs)",
+                           "runs_with_shifted_clock": probes.get("clock_shifted", 0),
+                           "offsets_used_days": [0, 0.46, 3, -30, 400]},
         "faults_fired": ff,
         "probes": probes,
         "histories_per_plugin": per_plugin,
